@@ -106,6 +106,15 @@ def run(ctx):
             ctx.check(len(good) == 1 and h.must_pass([bb], good) and len(regs) == 1, "R10.3", "%s|register-inserted-expiry" % h.name,
                       "after a TTL insert the handler registers (same id, the returned expiry) in the expiry index, on every path", h.where(bb))
     ctx.floor("R10.3", "TTL insert call sites", n_reg, 1)
+    # a TTL added / changed / removed through the upsert must reach the index too (shared with C08 R08.3)
+    import c08
+    sub = type(ctx)(ctx.prop, ctx.facts, ctx.tier, ctx.config)
+    sub.no_share = True
+    if not getattr(ctx, 'no_share', False):
+        c08.run(sub)
+    for o in sub.obligations:
+        if o["rule"] == "R08.3" and "classification-drives-index" in o["key"]:
+            ctx._add(o["status"], "R10.3", o["key"].split("|", 1)[1], o["desc"] + " [an expiry stored by an upsert that is not registered is never swept]", o["where"], o["detail"])
 
     # ---- R10.4 unregistration in the delete handler ------------------------------------------------------
     n_unreg = 0
